@@ -61,6 +61,7 @@ def parseBldOp (o : String) : Option (Bool × List GcsBuilder.Op) :=
   | ["h", h] => (bytes? h).map fun h => (false, [GcsBuilder.Op.setKey (h.take 16)])
   | ["A", ds] => (list? bytes? ds).map fun ds => (false, ds.map GcsBuilder.Op.addEntry)
   | ["P", _] => some (false, [])   -- Preallocate: a capacity hint, no effect on the set
+  | ["H", h] => (bytes? h).map fun h => (false, [GcsBuilder.Op.addEntry ((h ++ List.replicate 32 0).take 32)])
   -- With* constructors: SetKey . SetP . SetM (. Preallocate) on a fresh builder; defaults P = 19, M = 784931
   | ["w", ct, k, p, _n, m] => do
     let k ← bytes? k; let p ← nat? p; let m ← nat? m
@@ -141,6 +142,14 @@ def run : Runner
     pure { model := match GcsBuilder.Build sip b with
       | .ok f => s!"{ks} {filterObs f}"
       | .error e => s!"{ks} {bErrTok e}" }
+  -- a random key is a key: same bytes as the builder given that key, two random keys differ, every item is a member
+  | "bldrand", [_, variant, p, _n, m, items], _ => do
+    let p ← nat? p; let m ← nat? m
+    let (p, m) := if variant == "default" then (19, 784931) else (p, m)
+    let items ← expandItems items
+    let distinct := items.eraseDups.length
+    pure { model := if p = 0 ∨ p > 32 ∨ m = 0 ∨ m > 0xffffffff then "err" else s!"1 1 {items.length}/{items.length}",
+           prop := if distinct == 0 then "-" else "spec" }
   | "basic", [_, txs, prev], impl => do
     let (ext, _) ← C10.splitExt impl
     let bh ← bytes? ext
